@@ -368,8 +368,51 @@ def real_options(opts, log):
     return kw
 
 
+class DidNotTerminate(BaseException):
+    """the library call exceeded REAL_LIMIT_S seconds (a Python-level loop; raised from a SIGALRM handler)"""
+
+
+REAL_LIMIT_S = float(os.environ.get("VERIF_REAL_LIMIT_S", "15"))
+
+
+class time_limit:
+    """bound one in-process library call: non-termination is an outcome of the call ("err": "DidNotTerminate"),
+    not a hang of the check.  Only effective in the main thread (signal handlers); elsewhere it is a no-op and the
+    per-check watchdog remains the last resort."""
+
+    def __init__(self, seconds=None):
+        self.seconds = REAL_LIMIT_S if seconds is None else seconds
+        self.active = False
+
+    def __enter__(self):
+        import signal
+        import threading
+        if threading.current_thread() is threading.main_thread():
+            def handler(signum, frame):
+                raise DidNotTerminate("no result after %.0f s" % self.seconds)
+            self.old = signal.signal(signal.SIGALRM, handler)
+            signal.setitimer(signal.ITIMER_REAL, self.seconds)
+            self.active = True
+        return self
+
+    def __exit__(self, *a):
+        import signal
+        if self.active:
+            signal.setitimer(signal.ITIMER_REAL, 0)
+            signal.signal(signal.SIGALRM, self.old)
+        return False
+
+
 def run_real(data, opts, name=None, want_doc=True):
     """returns dict: value/messages/types (or err), raw {value,messages}|{err}, doc (reader output), imageCalls"""
+    try:
+        with time_limit():
+            return _run_real(data, opts, name, want_doc)
+    except DidNotTerminate as e:
+        return {"err": "DidNotTerminate", "err_text": "the library call did not return: %s" % e, "imageCalls": [], "raw": {"err": "DidNotTerminate"}}
+
+
+def _run_real(data, opts, name=None, want_doc=True):
     import mammoth
     from mammoth import docx as mdocx
     out = {}
